@@ -313,8 +313,11 @@ Proof.
     destruct (sub_box_spec K C HC k (10 * K) (o_mul qops (o_div qops 1 (o_ten qops)) eps) q y
                 (mklsub (fun c => gval qops 1 (Kq K) k wx y c) al (fun _ => o_zero qops) (o_zero qops)) B) as [R1 R2].
     split; [exact R1|]. split; [|intros; reflexivity].
-    intros c. specialize (R2 c). cbn [l_al l_mu o_zero qops] in R2. lra.
-  - cbn [r_al r_mu r_w]. split; [exact B|]. split; [intros; lra|].
+    intros c. specialize (R2 c).
+    match type of R2 with context [sub_box ?a1 ?a2 ?a3 ?a4 ?a5 ?a6 ?a7 ?a8 ?a9 ?a10 ?a11] => set (S' := sub_box a1 a2 a3 a4 a5 a6 a7 a8 a9 a10 a11) in * end.
+    cbn [l_al l_mu o_zero qops] in R2.
+    lra.
+  - cbn [r_al r_mu r_w o_zero qops]. split; [exact B|]. split; [intros; lra|].
     intros c d. unfold add_scaled. destruct (c <? K)%nat; [|reflexivity]. cbn [o_add o_mul qops].
     rewrite wstep_zero. ring.
 Qed.
